@@ -719,20 +719,22 @@ func (c *client) barrier() barrierRes {
 // ---------------------------------------------------------------- handler control
 
 type hAction struct {
-	ReadBody bool
-	Body     int
-	Status   int
+	ReadBody  bool
+	Body      int
+	Status    int
+	CloseBody bool // close Request.Body and keep running (wait for the next action)
 }
 
 type hstream struct {
-	sid      string
-	method   string
-	path     string
-	serial   uint32
-	release  chan hAction
-	returned bool
-	bodyRead int
-	bodyErr  string
+	sid        string
+	method     string
+	path       string
+	serial     uint32
+	release    chan hAction
+	returned   bool
+	bodyRead   int
+	bodyErr    string
+	bodyClosed bool
 }
 
 // handlerCtl is the request handler given to ServeConn. Every invocation registers
@@ -778,10 +780,21 @@ func (h *handlerCtl) ServeHTTP(w bfe_http.ResponseWriter, r *bfe_http.Request) {
 	if h.auto != nil {
 		act = *h.auto
 	} else {
-		select {
-		case act = <-hs.release:
-		case <-h.done:
-			return
+		for {
+			select {
+			case act = <-hs.release:
+			case <-h.done:
+				return
+			}
+			if !act.CloseBody {
+				break
+			}
+			// the handler loses interest in the request body while it keeps running
+			r.Body.Close()
+			h.mu.Lock()
+			hs.bodyClosed = true
+			h.cond.Broadcast()
+			h.mu.Unlock()
 		}
 	}
 	if act.ReadBody {
